@@ -51,35 +51,84 @@ def model_successors(hist, reduced=False):
     return out
 
 
+def obj_frame(j, setting, cons, stack):
+    """Frame pushed by `with cfg:` for a Config object built earlier under the frame stack `cons`.  The object froze
+    default+cons+setting at construction; whether a block entered elsewhere shows that frozen state or inherits from the
+    blocks around it is not something the property fixes, so the frame is 'definite' only when both readings agree."""
+    definite = model_fp(list(cons)) is not None and model_fp(list(stack)) is not None and model_fp(list(cons) + [setting]) == model_fp(list(stack) + [setting])
+    return ('o', j, definite, setting)
+
+
 def canon(hist):
-    stack, inv = [], []
+    stack, inv, cfgs = [], [], []
     used = set()
     for ev in hist:
         if ev[0] == 'push':
             stack.append(ev[1])
         elif ev[0] == 'pop':
             stack.pop()
-        elif ev[0] == 'exc':
+        elif ev[0] in ('exc', 'bexc'):
             del stack[-ev[1]:]
         elif ev[0] in ('mkinv', 'mkinvc'):
             inv.append(tuple(stack))
         elif ev[0] == 'applyj':
             used.add(model_fp(inv[ev[1]]))
+        elif ev[0] == 'mkcfg':
+            cfgs.append([ev[1], tuple(stack), True])
+        elif ev[0] == 'enter':
+            stack.append(obj_frame(ev[1], cfgs[ev[1]][0], cfgs[ev[1]][1], stack))
+        elif ev[0] == 'drop':
+            cfgs[ev[1]][2] = False
     # the shared jitted function remembers which configurations it has been traced with: part of the state
-    return (tuple(stack), tuple(inv), tuple(sorted(map(repr, used))))
+    if not cfgs:
+        return (tuple(stack), tuple(inv), tuple(sorted(map(repr, used))))
+    return (tuple(stack), tuple(inv), tuple(sorted(map(repr, used))), tuple(map(tuple, cfgs)))
 
 
 FIELDS = {'T': {'throw': True}, 'A': {'cb': 'A'}, 'S1': {'solver': 'CG1'}, 'TB': {'throw': True, 'cb': 'B'}, 'OP': {'opts': 'P'}, 'F': {'throw': False}, 'O0': {'opts': 'none'}}
 
 
 def model_fp(stack):
+    """None = not determined by the property (inside a block of a Config object entered away from where it was built)."""
     d = {'solver': 'CG0', 'throw': False, 'cb': 'default', 'opts': 'none'}
     for s in stack:
+        if isinstance(s, tuple):
+            if not s[2]:
+                return None
+            s = s[3]
         d.update(FIELDS[s])
     return (d['solver'], d['throw'], d['cb'], d['opts'])
 
 
-def bfs_cases(n, reduced=False):
+OBJ_PUSH = ['T', 'S1']
+OBJ_MK = ['A', 'S1']
+MAX_CFG = 2
+
+
+def obj_successors(hist):
+    """Alphabet of the phase on Config OBJECTS: build now / enter later / release, and blocks left through exceptions that
+    do not derive from Exception.  An object is not entered again while one of its own blocks is open."""
+    stack, inv, used, *rest = canon(hist)
+    cfgs = rest[0] if rest else ()
+    depth = len(stack)
+    definite = model_fp(list(stack)) is not None
+    out = [['push', s] for s in OBJ_PUSH] + [['read']]
+    if len(cfgs) < MAX_CFG and definite:
+        out += [['mkcfg', s] for s in OBJ_MK]
+    open_objs = {f[1] for f in stack if isinstance(f, tuple)}
+    out += [['enter', j] for j, c in enumerate(cfgs) if c[2] and j not in open_objs]
+    out += [['drop', j] for j, c in enumerate(cfgs) if c[2]]
+    if len(inv) < 1:
+        out.append(['mkinv'])
+    out += [['readinv', i] for i in range(len(inv))]
+    if depth > 0:
+        out.append(['pop'])
+        out += [['exc', k] for k in range(1, depth + 1)]
+        out += [['bexc', k] for k in range(1, depth + 1)]
+    return out
+
+
+def bfs_cases(n, reduced=False, succ=None):
     """All transitions (history + one event) out of one representative per canonical state, depth <= n."""
     seen = {canon(())}
     frontier = collections.deque([[]])
@@ -88,7 +137,7 @@ def bfs_cases(n, reduced=False):
         h = frontier.popleft()
         if len(h) >= n:
             continue
-        for ev in model_successors(h, reduced):
+        for ev in (succ(h) if succ else model_successors(h, reduced)):
             h2 = h + [ev]
             cases.append(h2)
             k = canon(h2)
@@ -151,6 +200,9 @@ def plan(tier, seed):
     seen_h = {repr(c) for c in cases}
     pair_hist = [h for h in pair_hist if repr(h) not in seen_h]
     phases.append({'name': 'histories_pairs', 'target': TARGET, 'cases': pair_hist, 'x64': False, 'chunk': 6})
+    obj_cases, obj_states = bfs_cases(5 if tier == 'quick' else 6, succ=obj_successors)
+    obj_cases = [h for h in obj_cases if repr(h) not in seen_h]
+    phases.append({'name': 'histories_objs', 'target': TARGET, 'cases': obj_cases, 'x64': False, 'chunk': 40, 'ctx': {'model_states': obj_states}})
     # event-level interleavings: all ordered pairs of histories x {two threads, parent + copy_context child}
     pairs = []
     for i, j in itertools.product(range(len(SCHED_HISTORIES)), repeat=2):
@@ -217,6 +269,8 @@ def _setup():
     _W.update(make_fjit=lambda: equinox.filter_jit(lambda inv, x: inv.mv(x)))
 
     def fp(cfg):
+        if not isinstance(cfg, type(DEFAULT)):
+            return ('not-a-configuration', type(cfg).__name__)
         solver = 'CG1' if cfg.solver is CG1 else 'CG0' if cfg.solver is DEFAULT.solver else 'other'
         cb = 'A' if cfg.solver_callback is cbA else 'B' if cfg.solver_callback is cbB else 'default' if cfg.solver_callback is DEFAULT.solver_callback else 'other'
         opts = 'none' if cfg.solver_options == {} else 'P' if cfg.solver_options.get('preconditioner') is SINV and len(cfg.solver_options) == 1 else 'other'
@@ -241,6 +295,13 @@ class Unwind(Exception):
         self.k = k
 
 
+class UnwindB(BaseException):
+    """Leaves blocks like KeyboardInterrupt / SystemExit / GeneratorExit do: not an Exception subclass."""
+
+    def __init__(self, k):
+        self.k = k
+
+
 def interpret(hist, problems, obs=None, ev=None, api=None, init_stack=(), spawn_at=None, child=None, do_apply=True, fast_inv=False):
     """Executes a history on the real Config with genuine `with` statements, comparing with the model after
     every event.  `ev()` is called between events (scheduling point of the SCHED engine)."""
@@ -257,8 +318,12 @@ def interpret(hist, problems, obs=None, ev=None, api=None, init_stack=(), spawn_
     end_state = []
     fjit = []
 
+    cfgs = []
+
     def expect(what, got, want):
         nonlocal nchecks
+        if want is None:   # not determined by the property (see obj_frame)
+            return
         nchecks += 1
         if got != want:
             problems.append(f'{what}: observed {got}, model {want} (history {hist}, position {pos})')
@@ -277,22 +342,40 @@ def interpret(hist, problems, obs=None, ev=None, api=None, init_stack=(), spawn_
             e = hist[pos]
             pos += 1
             tick()
-            if e[0] == 'push':
-                stack.append(e[1])
+            if e[0] in ('push', 'enter'):
+                if e[0] == 'push':
+                    frame = e[1]
+                    cm = Config(**SET[e[1]])
+                else:
+                    cm, setting, cons = cfgs[e[1]]
+                    frame = obj_frame(e[1], setting, cons, stack)
+                stack.append(frame)
                 try:
-                    with Config(**SET[e[1]]) as c:
+                    with cm as c:
                         expect('value bound by `as`', fp(c), model_fp(stack))
                         expect('active after enter', fp(Config.instance()), model_fp(stack))
+                        del cm
                         r = block()
                     stack.pop()
                     expect('active after normal exit', fp(Config.instance()), model_fp(stack))
                     if r == 'end':
                         return 'end'
-                except Unwind as u:
+                except (Unwind, UnwindB) as u:
                     stack.pop()
-                    expect('active after exit by exception', fp(Config.instance()), model_fp(stack))
+                    expect('active after exit by exception' + (' (not an Exception subclass)' if isinstance(u, UnwindB) else ''), fp(Config.instance()), model_fp(stack))
                     if u.k > 1:
-                        raise Unwind(u.k - 1)
+                        raise type(u)(u.k - 1)
+            elif e[0] == 'bexc':
+                raise UnwindB(e[1])
+            elif e[0] == 'mkcfg':
+                cfgs.append((Config(**SET[e[1]]), e[1], tuple(stack)))
+                expect('active after building a Config object', fp(Config.instance()), model_fp(stack))
+            elif e[0] == 'drop':
+                import gc
+
+                cfgs[e[1]] = (None,) + cfgs[e[1]][1:]
+                gc.collect()
+                expect('active after releasing a Config object', fp(Config.instance()), model_fp(stack))
             elif e[0] == 'pop':
                 return 'pop'
             elif e[0] == 'exc':
@@ -389,7 +472,7 @@ def interpret(hist, problems, obs=None, ev=None, api=None, init_stack=(), spawn_
 
     try:
         block()
-    except Unwind:
+    except (Unwind, UnwindB):
         pass
     tick()
     return nchecks, end_state[0] if end_state else None, invs
@@ -557,7 +640,7 @@ def run(phase, cases, ctx):
            'per_bound': collections.Counter(), 'samples': [], 'nondeterministic': 0, 'sched_points_max': 0}
     for case in cases:
         res['n'] += 1
-        if phase in ('histories', 'histories_pairs'):
+        if phase in ('histories', 'histories_pairs', 'histories_objs'):
             problems, out = run_history(case)
             res['checks'] += out.get('nchecks', 0)
             key = repr(canon(case))
@@ -597,11 +680,11 @@ def run(phase, cases, ctx):
 
 def finalize(results, tier, seed):
     h = results['histories']
-    hp = results['histories_pairs']
-    for k, v in hp['impl_map'].items():
-        h['impl_map'].setdefault(k, set()).update(v)
-    h['n'] += hp['n']
-    h['checks'] += hp['checks']
+    for hp in (results['histories_pairs'], results['histories_objs']):
+        for k, v in hp['impl_map'].items():
+            h['impl_map'].setdefault(k, set()).update(v)
+        h['n'] += hp['n']
+        h['checks'] += hp['checks']
     violations = []
     impl_map = h['impl_map']
     # abstraction conformance: equal canonical model state => equal implementation fingerprint
